@@ -14,15 +14,17 @@ CONSTANTS N, Atomic
 Procs == 1..N
 
 Ops == {"u2f_disable", "u2f_enable", "u2f_delete", "u2f_rename", "totp_disable", "totp_enable", "totp_delete", "totp_rename",
-        "totp_gen", "u2f_regbegin", "webauthn_regbegin", "totp_auth", "botp_use", "botp_gen"}
+        "totp_gen", "u2f_regbegin", "webauthn_regbegin", "totp_auth", "botp_use", "botp_gen",
+        \* signing in with the hardware token against the pending challenge (U2F API / WebAuthn API): the profile is read, not changed
+        "u2f_auth", "webauthn_auth"}
 
 Tok == [present : BOOLEAN, enabled : BOOLEAN, name : 0..3]
 \* two kinds of user: one with tokens registered, one freshly created holding a bootstrap OTP
 ProfOf(w) == IF w = "tokens"
              THEN [u2f |-> [present |-> TRUE, enabled |-> TRUE, name |-> 0], totp |-> [present |-> TRUE, enabled |-> TRUE, name |-> 0],
-                   pending |-> FALSE, regchal |-> FALSE, wchal |-> FALSE, totpUsed |-> FALSE, botp |-> 0]
+                   pending |-> FALSE, regchal |-> FALSE, wchal |-> FALSE, totpUsed |-> FALSE, botp |-> 0, chal |-> TRUE]
              ELSE [u2f |-> [present |-> FALSE, enabled |-> FALSE, name |-> 0], totp |-> [present |-> FALSE, enabled |-> FALSE, name |-> 0],
-                   pending |-> FALSE, regchal |-> FALSE, wchal |-> FALSE, totpUsed |-> FALSE, botp |-> 1]
+                   pending |-> FALSE, regchal |-> FALSE, wchal |-> FALSE, totpUsed |-> FALSE, botp |-> 1, chal |-> FALSE]
 
 \* ------------------------------------------------------------------ sequential meaning of each operation
 \* Result(op, p): what the handler answers when it runs alone on profile p
@@ -34,6 +36,8 @@ Result(op, p) ==
       [] op = "totp_auth" -> IF p.totp.present /\ p.totp.enabled /\ ~p.totpUsed THEN "ok" ELSE "refused"
       \* the bootstrap OTP is a VALUE: 0 = none, 1 = the one the requester knows, 2 = a newer one an administrator generated
       [] op = "botp_use"  -> IF p.botp = 1 THEN "ok" ELSE "refused"
+      \* chal: a sign-in challenge is pending for the user (one-time: the sign-in that answers it consumes it)
+      [] op \in {"u2f_auth", "webauthn_auth"} -> IF p.u2f.present /\ p.u2f.enabled /\ p.chal THEN "ok" ELSE "refused"
 \* Apply(op, p): the profile afterwards
 Apply(op, p) ==
     IF Result(op, p) # "ok" THEN p ELSE
@@ -51,6 +55,7 @@ Apply(op, p) ==
       [] op = "totp_auth"    -> [p EXCEPT !.totpUsed = TRUE]
       [] op = "botp_use"     -> [p EXCEPT !.botp = 0]
       [] op = "botp_gen"     -> [p EXCEPT !.botp = 2]
+      [] op \in {"u2f_auth", "webauthn_auth"} -> [p EXCEPT !.chal = FALSE]
 
 \* ------------------------------------------------------------------ the processes
 VARIABLES prof, loc, pc, res, order,    \* order: history, the order in which processes took effect
@@ -104,5 +109,6 @@ NotUndone == AllDone => \A p \in Procs : res[p] = "ok" =>
                 /\ ((OpOf[p] = "totp_disable" /\ ~\E q \in Procs : Undoes("totp_disable", q)) => ~(prof.totp.present /\ prof.totp.enabled))
 \* a one-time value presented twice at the same moment is honoured at most once
 OneSpend == /\ Cardinality({p \in Procs : OpOf[p] = "totp_auth" /\ res[p] = "ok"}) <= 1
+            /\ Cardinality({p \in Procs : OpOf[p] \in {"u2f_auth", "webauthn_auth"} /\ res[p] = "ok"}) <= 1
             /\ Cardinality({p \in Procs : OpOf[p] = "botp_use" /\ res[p] = "ok"}) <= 1
 =============================================================================
